@@ -480,9 +480,7 @@ func (o *Origin) RoundTrip(req *http.Request) (*http.Response, error) {
 		scripted = 0
 	}
 	w.mu.Unlock()
-	if w.gate != nil {
-		w.gate.wait(g, "origin")
-	}
+	w.gateWait(x)
 	t0 := time.Now()
 	inm, ims := req.Header.Get("If-None-Match"), req.Header.Get("If-Modified-Since")
 	if a.K == "304" && inm == "" && ims == "" {
@@ -575,6 +573,17 @@ func (w *World) apply304(tok, tag string) {
 		if k != "Content-Length" {
 			cur[k] = v
 		}
+	}
+}
+
+// gateWait blocks a store operation or origin call of exchange x while a scheduled
+// concurrent step is replayed.
+func (w *World) gateWait(x int) {
+	w.mu.Lock()
+	g := w.gate
+	w.mu.Unlock()
+	if g != nil {
+		g.wait(x)
 	}
 }
 
